@@ -3,6 +3,7 @@ package rules
 import (
 	"fmt"
 	"go/ast"
+	"go/constant"
 	"go/token"
 	"go/types"
 	"reflect"
@@ -70,31 +71,76 @@ func RuleJ1(c *Ctx) {
 			sc.Undecided(key, pos, "MarshalText does not use String()")
 			continue
 		}
-		if len(fd.Body.List) != 1 {
-			sc.Undecided(key, pos, "String() is not a single return")
+		// the key text: `return fmt.Sprintf(format, operands...)` or a concatenation of literals
+		// and operands; locals that are assigned once stand for their definitions
+		var ret *ast.ReturnStmt
+		straight := true
+		for i, st := range fd.Body.List {
+			if r, isRet := st.(*ast.ReturnStmt); isRet && i == len(fd.Body.List)-1 {
+				ret = r
+				continue
+			}
+			if as, isAs := st.(*ast.AssignStmt); isAs && as.Tok == token.DEFINE {
+				continue
+			}
+			straight = false
+		}
+		if ret == nil || !straight || len(ret.Results) != 1 {
+			sc.Undecided(key, pos, "String() is not local definitions followed by a single return")
 			continue
 		}
-		ret, ok := fd.Body.List[0].(*ast.ReturnStmt)
-		if !ok || len(ret.Results) != 1 {
-			sc.Undecided(key, pos, "String() is not a single return")
-			continue
+		scf := c.CFG(pk, fd.Body)
+		var format string
+		var operands []ast.Expr
+		if call, ok := ast.Unparen(ret.Results[0]).(*ast.CallExpr); ok && isPkgFunc(info, call, "fmt", "Sprintf") && len(call.Args) >= 1 {
+			ftv, ok := info.Types[call.Args[0]]
+			if !ok || ftv.Value == nil {
+				sc.Undecided(key, pos, "format is not a constant")
+				continue
+			}
+			format, _ = strconv.Unquote(ftv.Value.ExactString())
+			for _, a := range call.Args[1:] {
+				operands = append(operands, scf.Resolve(a))
+			}
+		} else {
+			okConcat := true
+			var flat func(e ast.Expr)
+			flat = func(e ast.Expr) {
+				e = ast.Unparen(e)
+				if tv, ok := info.Types[e]; ok && tv.Value != nil && tv.Value.Kind() == constant.String {
+					format += strings.ReplaceAll(constant.StringVal(tv.Value), "%", "%%")
+					return
+				}
+				if be, ok := e.(*ast.BinaryExpr); ok && be.Op == token.ADD {
+					flat(be.X)
+					flat(be.Y)
+					return
+				}
+				if r := scf.Resolve(e); r != e {
+					flat(r)
+					return
+				}
+				if t := info.TypeOf(e); t != nil {
+					if bt, ok := t.Underlying().(*types.Basic); ok && bt.Info()&types.IsString != 0 {
+						format += "%s"
+						operands = append(operands, e)
+						return
+					}
+				}
+				okConcat = false
+			}
+			flat(ret.Results[0])
+			if !okConcat || len(operands) == 0 {
+				sc.Undecided(key, pos, "String() is neither fmt.Sprintf(format, ...) nor a concatenation of strings")
+				continue
+			}
 		}
-		call, ok := ast.Unparen(ret.Results[0]).(*ast.CallExpr)
-		if !ok || !isPkgFunc(info, call, "fmt", "Sprintf") || len(call.Args) < 1 {
-			sc.Undecided(key, pos, "String() is not fmt.Sprintf(format, ...)")
-			continue
-		}
-		ftv, ok := info.Types[call.Args[0]]
-		if !ok || ftv.Value == nil {
-			sc.Undecided(key, pos, "format is not a constant")
-			continue
-		}
-		format, _ := strconv.Unquote(ftv.Value.ExactString())
 		pieces := strings.Split(format, "%s")
-		if len(pieces) != len(call.Args) {
+		if len(pieces) != len(operands)+1 {
 			sc.Undecided(key, pos, "format uses verbs other than %s")
 			continue
 		}
+		call := &ast.CallExpr{Args: append([]ast.Expr{nil}, operands...)}
 		free := 0
 		var descr []string
 		bad := ""
@@ -580,6 +626,18 @@ func RuleTG(c *Ctx) {
 		}
 		over := types.ExprString(rs.X)
 		ast.Inspect(rs.Body, func(y ast.Node) bool {
+			// filling a pre-sized result by index: names[i] = tags[i].Name
+			if as, ok := y.(*ast.AssignStmt); ok && len(as.Lhs) == 1 && len(as.Rhs) == 1 {
+				if ix, ok := ast.Unparen(as.Lhs[0]).(*ast.IndexExpr); ok {
+					if _, isSl := info.TypeOf(ix.X).Underlying().(*types.Slice); isSl {
+						if sel, ok := ast.Unparen(as.Rhs[0]).(*ast.SelectorExpr); ok {
+							if v, ok := info.ObjectOf(sel.Sel).(*types.Var); ok && v.IsField() && fieldOwner(tagNamed, v) {
+								appOver[over] = true
+							}
+						}
+					}
+				}
+			}
 			if call, ok := y.(*ast.CallExpr); ok {
 				if g := Callee(info, call); g != nil && recvNamedOf(g) != nil && recvNamedOf(g).Obj().Name() == "Tag" {
 					regOver[over] = true
@@ -873,75 +931,101 @@ func RuleTP1(c *Ctx) {
 		if !ok || !types.Identical(pt.Elem(), tagT) {
 			return
 		}
-		// the three sources: a helper that finds the interaction's own Tags child (no use of
-		// Parent), a helper that finds the enclosing URL's Tags (uses Parent), and the return
-		// that builds the path tag (a composite literal). Precedence is decided by dataflow:
-		// the parent helper is consulted only where the own helper's result was nil, and the
-		// path tag is returned only where a variable holding the parent helper's result was nil.
+		// the three sources: a lookup among the interaction's own children, a lookup among the
+		// children of its Parent (the enclosing URL), and the return that builds the path tag
+		// (a composite literal). The two lookups may stand in the chooser itself or, together,
+		// in a finder it calls. Precedence is decided by dataflow: the parent lookup is made
+		// only where the own lookup's result was nil, and the path tag is returned only where
+		// the parent lookup (or the finder) found nothing.
 		dirT := c.Named("directive", "Directive")
-		var ownCall, parentCall *ast.CallExpr
-		ast.Inspect(fd.Body, func(x ast.Node) bool {
-			call, ok := x.(*ast.CallExpr)
-			if !ok {
-				return true
-			}
-			g := Callee(info, call)
-			gd := c.P.Decl(g)
-			if g == nil || gd == nil || c.P.PkgOfDecl(gd) != pk {
-				return true
-			}
+		returnsDir := func(g *types.Func) bool {
 			gsig := g.Type().(*types.Signature)
-			if gsig.Results().Len() != 1 {
+			if gsig.Results().Len() < 1 || gsig.Results().Len() > 2 {
+				return false
+			}
+			rp, ok := gsig.Results().At(0).Type().(*types.Pointer)
+			return ok && dirT != nil && types.Identical(rp.Elem(), dirT)
+		}
+		viaParent := func(gd *ast.FuncDecl, call *ast.CallExpr, g *types.Func) bool {
+			// the callee walks to the Parent itself ...
+			uses := false
+			if cd := c.P.Decl(g); cd != nil {
+				ast.Inspect(cd.Body, func(y ast.Node) bool {
+					if sel, ok := y.(*ast.SelectorExpr); ok && sel.Sel.Name == "Parent" {
+						uses = true
+					}
+					return true
+				})
+			}
+			if uses {
 				return true
 			}
-			if rp, ok := gsig.Results().At(0).Type().(*types.Pointer); !ok || dirT == nil || !types.Identical(rp.Elem(), dirT) {
-				return true
+			// ... or it is handed something reached through Parent
+			gcf := c.CFG(pk, gd.Body)
+			for _, a := range call.Args {
+				ast.Inspect(a, func(y ast.Node) bool {
+					switch z := y.(type) {
+					case *ast.SelectorExpr:
+						if z.Sel.Name == "Parent" {
+							uses = true
+						}
+					case *ast.Ident:
+						if def := gcf.DefOf(info.ObjectOf(z)); def != nil {
+							ast.Inspect(def, func(w ast.Node) bool {
+								if s2, ok := w.(*ast.SelectorExpr); ok && s2.Sel.Name == "Parent" {
+									uses = true
+								}
+								return true
+							})
+						}
+					}
+					return true
+				})
 			}
-			usesParent := false
-			ast.Inspect(gd.Body, func(y ast.Node) bool {
-				if sel, ok := y.(*ast.SelectorExpr); ok && sel.Sel.Name == "Parent" {
-					usesParent = true
+			return uses
+		}
+		lookupsIn := func(gd *ast.FuncDecl) (own, parent *ast.CallExpr) {
+			ast.Inspect(gd.Body, func(x ast.Node) bool {
+				call, ok := x.(*ast.CallExpr)
+				if !ok {
+					return true
+				}
+				g := Callee(info, call)
+				cd := c.P.Decl(g)
+				if g == nil || cd == nil || c.P.PkgOfDecl(cd) != pk || !returnsDir(g) {
+					return true
+				}
+				if viaParent(gd, call, g) {
+					parent = call
+				} else {
+					own = call
 				}
 				return true
 			})
-			if usesParent {
-				parentCall = call
-			} else {
-				ownCall = call
-			}
-			return true
-		})
-		var pathRet *ast.ReturnStmt
-		ast.Inspect(fd.Body, func(x ast.Node) bool {
-			if ret, ok := x.(*ast.ReturnStmt); ok && len(ret.Results) == 2 {
-				if _, isLit := ast.Unparen(ret.Results[0]).(*ast.CompositeLit); isLit {
-					pathRet = ret
-				}
-			}
-			return true
-		})
-		if ownCall == nil || parentCall == nil || pathRet == nil {
 			return
 		}
-		found = true
-		cf := c.CFG(pk, fd.Body)
-		// variables assigned from a call
-		holders := func(call *ast.CallExpr) map[types.Object]bool {
+		holdersIn := func(gd *ast.FuncDecl, call *ast.CallExpr) map[types.Object]bool {
 			out := map[types.Object]bool{}
-			ast.Inspect(fd.Body, func(x ast.Node) bool {
+			ast.Inspect(gd.Body, func(x ast.Node) bool {
 				as, ok := x.(*ast.AssignStmt)
 				if !ok || len(as.Rhs) != 1 || ast.Unparen(as.Rhs[0]) != ast.Expr(call) {
 					return true
 				}
-				if id, ok := as.Lhs[0].(*ast.Ident); ok {
-					out[info.ObjectOf(id)] = true
+				for _, l := range as.Lhs {
+					if id, ok := l.(*ast.Ident); ok && id.Name != "_" {
+						out[info.ObjectOf(id)] = true
+					}
 				}
 				return true
 			})
 			return out
 		}
-		nilOf := func(vars map[types.Object]bool) func(cfgx.Fact) bool {
+		absentOf := func(vars map[types.Object]bool) func(cfgx.Fact) bool {
 			return func(fa cfgx.Fact) bool {
+				// a found-flag that is false
+				if id, ok := ast.Unparen(fa.Expr).(*ast.Ident); ok && !fa.Truth && vars[info.ObjectOf(id)] {
+					return true
+				}
 				be, ok := ast.Unparen(fa.Expr).(*ast.BinaryExpr)
 				if !ok || !((be.Op == token.EQL && fa.Truth) || (be.Op == token.NEQ && !fa.Truth)) {
 					return false
@@ -956,12 +1040,55 @@ func RuleTP1(c *Ctx) {
 				return ok && vars[info.ObjectOf(id)]
 			}
 		}
-		ownVars, parentVars := holders(ownCall), holders(parentCall)
+		var pathRet *ast.ReturnStmt
+		ast.Inspect(fd.Body, func(x ast.Node) bool {
+			if ret, ok := x.(*ast.ReturnStmt); ok && len(ret.Results) == 2 {
+				if _, isLit := ast.Unparen(ret.Results[0]).(*ast.CompositeLit); isLit {
+					pathRet = ret
+				}
+			}
+			return true
+		})
+		if pathRet == nil {
+			return
+		}
+		// where do the two lookups stand?
+		orderFn := fd
+		ownCall, parentCall := lookupsIn(fd)
+		var finderCall *ast.CallExpr
+		if ownCall == nil || parentCall == nil {
+			ownCall, parentCall = nil, nil
+			ast.Inspect(fd.Body, func(x ast.Node) bool {
+				call, ok := x.(*ast.CallExpr)
+				if !ok || finderCall != nil {
+					return true
+				}
+				g := Callee(info, call)
+				gd := c.P.Decl(g)
+				if g == nil || gd == nil || c.P.PkgOfDecl(gd) != pk || !returnsDir(g) {
+					return true
+				}
+				if o, p2 := lookupsIn(gd); o != nil && p2 != nil {
+					finderCall, orderFn, ownCall, parentCall = call, gd, o, p2
+				}
+				return true
+			})
+		}
+		if ownCall == nil || parentCall == nil {
+			return
+		}
+		found = true
 		key := fd.Name.Name
+		ocf := c.CFG(pk, orderFn.Body)
+		cf := c.CFG(pk, fd.Body)
+		lastSource := holdersIn(fd, parentCall)
+		if finderCall != nil {
+			lastSource = holdersIn(fd, finderCall)
+		}
 		switch {
-		case !cf.MustAt(parentCall, nilOf(ownVars), nil, nil):
+		case !ocf.MustAt(parentCall, absentOf(holdersIn(orderFn, ownCall)), nil, nil):
 			sc.Violation(key, c.P.Pos(parentCall.Pos()), "the enclosing URL's Tags are consulted without the interaction's own Tags having been found absent: explicit Tags no longer win over the URL's")
-		case !cf.MustAt(pathRet, nilOf(parentVars), nil, nil):
+		case !cf.MustAt(pathRet, absentOf(lastSource), nil, nil):
 			sc.Violation(key, c.P.Pos(pathRet.Pos()), "the automatic path tag is returned without the own and the URL-level Tags having been found absent: the automatic tag is used although Tags are declared")
 		default:
 			sc.Holds(key, c.P.Pos(fd.Pos()), "sources consulted in the order own Tags, enclosing URL's Tags, path tag: each later source only where the earlier ones were absent")
